@@ -610,6 +610,18 @@ def _prepare_body(fn, call, drop_self, taken=None):
     pre = []
     rename = {}
     for p in list(mapping):
+        effectful = any(isinstance(x, (ast.Call, ast.Await, ast.Yield, ast.NamedExpr)) for x in ast.walk(mapping[p]))
+        n_uses = sum(1 for b in body for x in [b] + list(_own_walk(b)) if isinstance(x, ast.Name) and x.id == p and isinstance(x.ctx, ast.Load))
+        if effectful and n_uses != 0 and p not in stores:
+            # evaluate the argument once, where the call was: `p = <arg>` (renamed on collision)
+            name = p if (taken is None or p not in taken) else p + suffix
+            if taken is not None:
+                taken.add(name)
+            if name != p:
+                rename[p] = name
+            pre.append(ast.copy_location(ast.Assign(targets=[ast.Name(id=name, ctx=ast.Store())], value=copy.deepcopy(mapping[p]), lineno=call.lineno), call))
+            del mapping[p]
+            continue
         if p in stores:
             rename[p] = p + suffix
             pre.append(ast.copy_location(ast.Assign(targets=[ast.Name(id=p + suffix, ctx=ast.Store())], value=copy.deepcopy(mapping[p]), lineno=call.lineno), call))
@@ -1759,8 +1771,6 @@ class ProgramNormalizer:
         focus = self.focus
         if focus is None:
             self.rename_back()
-        self.rename_locals_back(only=focus)
-        self.fold_new_temporaries(only=focus)
         for mod, tree in self.trees.items():
             if focus is not None and mod not in focus:
                 continue
@@ -1772,6 +1782,8 @@ class ProgramNormalizer:
                     if c is not None:
                         imported[local] = c
             self.stats[mod]["constants_propagated"] = propagate_constants(tree, imported) + propagate_class_constants(tree)
+        self.rename_locals_back(only=focus)
+        self.fold_new_temporaries(only=focus)
         if not self.known:
             return self.stats
         # names of new helpers; functions that mention none of them (and define no new closure) need no rewriting
